@@ -18,8 +18,10 @@ LEVEL = ('decides the plumbing a proof depends on: every reason that is used is 
          'over reification literals, decided on the domain {0,1} (P9); the premises handed to '
          'log_inference are the complete explanation, with no selecting adaptor in between (P10); a '
          'tagged batch of root propagations starts at a trail length read after the previous '
-         'propagator finished (P11). Does not decide that a logged inference follows from its '
-         'constraint or that a nogood is derivable — that needs a proof checker and runs')
+         'propagator finished (P11). root-level antecedents skipped by conflict analysis or '
+         'minimisation are explained to the proof (P12). Does not decide that a logged inference '
+         'follows from its constraint or that a nogood is derivable — that needs a proof checker and '
+         'runs')
 TECHNIQUE = "static analysis: must-pass, typestate with a proof-completed bit, table recovery, populate/lookup guard agreement over rustc MIR"
 
 PROOF_DONE = 4     # bit of the X component: complete_proof / finalize_proof + empty nogood logged
